@@ -36,6 +36,10 @@ Next == /\ (OneStep => last = None)
         /\ \/ \E ovf \in Ovfs : \E p \in PartialsOf(IF cur = Nothing THEN "none" ELSE cur.ty) : WithAct(p, ovf)
            \/ /\ IdentityOn /\ cur # Nothing
               /\ \E ovf \in Ovfs : \E S \in (SUBSET DOMAIN OwnFields(cur.ty, cur.v)) \ {{}} : WithAct(Restrict(OwnFields(cur.ty, cur.v), S), ovf)
+           \* ... and the receiver's own year, month and day together with a month code that contradicts them or is foreign to the calendar
+           \/ /\ IdentityOn /\ cur # Nothing /\ cur.ty \in {"date", "datetime", "yearmonth"}
+              /\ \E ovf \in Ovfs : \E c \in {CodeOf(IF cur.v.m = 12 THEN 1 ELSE cur.v.m + 1), "M02L", "M13"} :
+                    WithAct([k \in (DOMAIN OwnFields(cur.ty, cur.v) \cap {"year", "month", "day", "monthCode"}) |-> IF k = "monthCode" THEN c ELSE OwnFields(cur.ty, cur.v)[k]], ovf)
            \/ \E ovf \in Ovfs : \E ty \in FromTypes : \E p \in PartialsOf(ty) : FromAct(ty, p, ovf)
            \/ \E ovf \in Ovfs : \E a \in NewArgs : NewAct(a, ovf)
 Spec == Init /\ [][Next]_vars
